@@ -53,6 +53,7 @@ def run_panics(ctx):
 def run(ctx):
     balance_rule(ctx, "C09.R1")
     bestmove_rule(ctx, "C09.R2")
+    r4_flags_and_iterations(ctx)
     # 'an interrupted search still answers with exactly one bestmove': the search thread must not die between the
     # interruption and the answer (same inventory as C07.R4)
     from . import c07
@@ -62,3 +63,104 @@ def run(ctx):
         "panics (unwind paths) are not interruption points of the property; cleanup blocks are ignored",
         "the analysis is path-insensitive: a correlated pair `if c {make} ... if c {unmake}` would be reported (no such idiom exists in the tree)",
     ]
+
+
+def r4_flags_and_iterations(ctx):
+    """what an interrupted search leaves behind besides the board, and which iteration answers"""
+    rid = "C09.R4"
+    ctx.rule(rid, "every go starts with cleared search flags (reset_for_go resets them unconditionally and go calls it before searching), and in best_move nothing between the return of an iteration and the test of the stop flag can set that flag (a stop seen after an iteration completed must not discard it)", floor=3)
+    from ..cfg import Cfg
+    from ..expr import Exprs, leaves
+    from ..callgraph import CallGraph
+    prog = ctx.prog
+    f = ctx.fn(rid, SEARCH + "reset_for_go")
+    cfg, ex = Cfg(f), Exprs(f)
+    resets = []
+    for b in sorted(cfg.reach):
+        for s in f["blocks"][b]["stmts"]:
+            d = s["dst"]
+            if d is None or not d["p"] or not isinstance(d["p"][-1], dict):
+                continue
+            nm = d["p"][-1].get("name")
+            whole = nm == "flags"
+            stop = nm == "stop_as_soon_as_possible" and s["rv"]["op"] == "use" and s["rv"]["a"][0].get("v") is False
+            if whole or stop:
+                resets.append(b)
+        t = f["blocks"][b]["term"]
+        if t["k"] == "call" and t.get("dest") and t["dest"]["p"] and isinstance(t["dest"]["p"][-1], dict) and t["dest"]["p"][-1].get("name") == "flags":
+            resets.append(b)
+    exits = [b for b in sorted(cfg.reach) if f["blocks"][b]["term"]["k"] == "return"]
+    # unconditional: every path from the entry to a return passes a reset
+    def reach_exit_avoiding(avoid):
+        seen, work = set(), [0]
+        while work:
+            x = work.pop()
+            if x in seen or x in avoid:
+                continue
+            seen.add(x)
+            if x in exits:
+                return True
+            work.extend(y for y in cfg.succ[x] if not f["blocks"][y]["cleanup"])
+        return False
+    ok = bool(resets) and not reach_exit_avoiding(set(resets))
+    ctx.ob(rid, "reset_for_go|flags-cleared-on-every-path", ok,
+           "" if ok else "reset_for_go can return without having cleared the search flags (the reset is conditional): a stop flag left by the interrupted search aborts the next go at its root and it is answered without a move",
+           ctx.where(f), sample={"reset_sites": len(resets)})
+    g = ctx.fn(rid, SEARCH + "go")
+    gcfg = Cfg(g)
+    rs = [b for b in sorted(gcfg.reach) if g["blocks"][b]["term"]["k"] == "call" and g["blocks"][b]["term"]["callee"].get("key") == SEARCH + "reset_for_go"]
+    bm = [b for b in sorted(gcfg.reach) if g["blocks"][b]["term"]["k"] == "call" and g["blocks"][b]["term"]["callee"].get("key") == SEARCH + "best_move"]
+    ok = len(rs) >= 1 and len(bm) >= 1 and all(any(gcfg.dominates(r, b) for r in rs) for b in bm)
+    ctx.ob(rid, "go|reset-before-search", ok, "" if ok else "Search::go does not call reset_for_go before best_move on every path", ctx.where(g))
+    # best_move: between the iteration's return and the test of the stop flag nothing may set the flag
+    h = ctx.fn(rid, SEARCH + "best_move")
+    hcfg, hex_ = Cfg(h), Exprs(h)
+    rec = [b for b in sorted(hcfg.reach) if h["blocks"][b]["term"]["k"] == "call" and h["blocks"][b]["term"]["callee"].get("key") == SEARCH + "search_negamax"]
+    if len(rec) != 1:
+        ctx.lost(rid, "the search_negamax call of Search::best_move")
+        return
+    # functions that can set the stop flag
+    setters = set()
+    for k, fn in prog.fns.items():
+        if not k.startswith("inkayaku_engine_core::") or fn.get("test"):
+            continue
+        for b in fn["blocks"]:
+            for s in b["stmts"]:
+                d = s["dst"]
+                if d is not None and d["p"] and isinstance(d["p"][-1], dict) and d["p"][-1].get("name") == "stop_as_soon_as_possible" and not (s["rv"]["op"] == "use" and s["rv"]["a"][0].get("v") is False):
+                    setters.add(k)
+    cg = CallGraph(prog)
+    # first read of the flag after the iteration
+    reads = []
+    for b in sorted(hcfg.reach):
+        if not hcfg.dominates(rec[0], b) or b == rec[0]:
+            continue
+        for s in h["blocks"][b]["stmts"]:
+            for a in s["rv"].get("a", []):
+                if a.get("k") in ("copy", "move") and a["pl"]["p"] and isinstance(a["pl"]["p"][-1], dict) and a["pl"]["p"][-1].get("name") == "stop_as_soon_as_possible":
+                    reads.append(b)
+        t = h["blocks"][b]["term"]
+        if t["k"] == "switch" and any(x[0] == "f" and x[2] == "stop_as_soon_as_possible" for x in leaves(hex_.operand(t["discr"]))):
+            reads.append(b)
+    if not reads:
+        ctx.lost(rid, "the read of flags.stop_as_soon_as_possible after the iteration in Search::best_move")
+        return
+    first = [r for r in reads if all(hcfg.dominates(r, o) or r == o for o in reads)]
+    first = first[0] if first else reads[0]
+    between = []
+    seen, work = set(), [y for y in hcfg.succ[rec[0]] if not h["blocks"][y]["cleanup"]]
+    while work:
+        x = work.pop()
+        if x in seen or x == first:
+            continue
+        seen.add(x)
+        t = h["blocks"][x]["term"]
+        if t["k"] == "call":
+            k = t["callee"].get("key") or ""
+            reach, _ = cg.reachable([k]) if k in prog.fns else (set(), None)
+            if (reach | {k}) & setters:
+                between.append((k.rsplit("::", 1)[-1], t["line"]))
+        work.extend(y for y in hcfg.succ[x] if not h["blocks"][y]["cleanup"] and hcfg.dominates(rec[0], y))
+    ctx.ob(rid, "best_move|stop-flag-as-of-the-iteration's-return", not between,
+           "" if not between else "Search::best_move calls %s between the return of an iteration and the test of the stop flag: a stop that arrives after the iteration completed marks that completed iteration as aborted, and the answer is taken from an earlier iteration (or is no move at all after iteration 1)" % sorted(set(between)),
+           ctx.where(h, between[0][1] if between else None), sample={"flag_setters": sorted(s_.rsplit("::", 1)[-1] for s_ in setters)})
